@@ -438,6 +438,40 @@ def run_case(case):
         outs.setdefault(key, order)
     res.nontrivial = 1 if n_ext > 1 else 0
     res.outcomes.extend(h64(s) for s in outs)
+    # the same orders again, now continued from shared prefix objects (every partial statement is built once and all
+    # orders that start with it continue from that one object): the result must be the statement built from scratch
+    if len(outs) == 1 and not next(iter(outs)).startswith("!") and n_ext > 1:
+        fresh_key = next(iter(outs))
+        cache = {}
+        for order in extensions(alpha, comb):
+            calls_ = [entry] + pre + [alpha[i][1] for i in order]
+            ids = tuple(["e"] + ["p%d" % j for j in range(len(pre))] + list(order))
+            k = len(ids)
+            while k > 0 and ids[:k] not in cache:
+                k -= 1
+            if k == 0:
+                env = prog.Env(d)
+                q = env.Q._builder()
+            else:
+                q, sym = cache[ids[:k]]
+                env = prog.Env(d)
+                env.sym = dict(sym)
+            try:
+                for j in range(k, len(ids)):
+                    q = prog.call(q, calls_[j], env)
+                    cache[ids[:j + 1]] = (q, dict(env.sym))
+                sql, _ = prog.render(q, d)
+                psql, vals = prog.render(q, d, param=True)
+                key2 = json.dumps([sql, psql, fp.vrepr(vals)])
+            except Exception as e:
+                key2 = "!shared:" + type(e).__name__
+            res.transitions += 2
+            if key2 != fresh_key:
+                res.violate("C13|%s|shared-prefix-dependent|%s" % (kind, "+".join(sorted(set(fams)))),
+                            "the statement continued from a partial statement that other continuations also started from differs from "
+                            "the same calls made from scratch", dialect=d, calls=[alpha[i][1] for i in comb], order=list(order),
+                            scratch=fresh_key[:400], shared=key2[:400])
+                return res
     if len(outs) > 1:
         (s1, o1), (s2, o2) = list(outs.items())[:2]
         res.violate("C13|%s|order-dependent|%s" % (kind, "+".join(sorted(set(fams)))),
